@@ -90,7 +90,7 @@ func cmdHelpers(args []string) {
 	}
 	rng := rand.New(rand.NewSource(seed()))
 	helpers.Slices(w, helpers.Inputs(*maxLen, *nrand, rng))
-	helpers.Sorts(w, *maxLen)
+	helpers.Sorts(w, *maxLen, rng)
 	helpers.Maps(w)
 	helpers.Maths(w)
 	helpers.Errors(w)
